@@ -44,7 +44,10 @@ def _run(job):
     ev = {"ev": "settings", "status": res["status"], "src": src,
           "obs": {"title": "", "root": "", "root_ns": "", "root_attrs": [], "has_submission": False, "submission": [], "body_class": "", "nsdecls": [], "instance_name": "", "has_instance_id": False}}
     if res["status"] == "ok":
-        ev["obs"] = settingsgen.observe(res["xform"])
+        try:
+            ev["obs"] = settingsgen.observe(res["xform"])
+        except Exception as e:  # noqa: BLE001 - the returned text cannot be read as an XForm (no h:head / model / primary instance where they belong)
+            ev["status"] = "output_is_not_an_xform:" + type(e).__name__
     return {"case": job["case"], "seed": job["seed"], "fmt": fmt, "wb": wb, "res": {k: v for k, v in res.items() if k not in ("events", "xform")}, "trace": [ev]}
 
 
